@@ -875,13 +875,23 @@ class C13(common.Prop):
                 return {"what": "row %d normalised alone differs from the batch result" % r, "clause": "independence"}
         a, t, R = case["xf"]["a"], case["xf"]["t"], case["xf"]["R"]
         X = np.array(case["data"]).reshape(-1, 3)
+        # invariance is claimed for the rows whose reference points are observed
+        sel = np.repeat(rows_ok, N * 3)
+
+        def differs(o):
+            if o[0] == "err":
+                return float("inf")
+            if [m_ for m_, k_ in zip(o[1]["mask"], sel) if k_] != [m_ for m_, k_ in zip(out[1]["mask"], sel) if k_]:
+                return float("inf")
+            return maxdiff([v for v, k_ in zip(o[1]["val"], sel) if k_], [v for v, k_ in zip(out[1]["val"], sel) if k_])
+
         o2, _ = self.impl_norm3d(case, data=(X * a + np.array(t)).reshape(-1).tolist())
-        if o2[0] == "err" or o2[1]["mask"] != out[1]["mask"] or maxdiff(o2[1]["val"], out[1]["val"]) > tol * 5:
-            return {"what": "output changes by %.3g under translation and uniform scaling" % maxdiff(o2[1]["val"], out[1]["val"]) if o2[0] == "ok" else "raises on the transformed copy", "clause": "invariance-translation-scale"}
+        if differs(o2) > tol * 5:
+            return {"what": "output changes by %.3g under translation by %s and uniform scaling by %g" % (differs(o2), t, a), "clause": "invariance-translation-scale"}
         Rm = np.array(R).reshape(3, 3)
         o3, _ = self.impl_norm3d(case, data=(X @ Rm.T).reshape(-1).tolist())
-        if o3[0] == "err" or o3[1]["mask"] != out[1]["mask"] or maxdiff(o3[1]["val"], out[1]["val"]) > tol * 5:
-            return {"what": "output changes by %.3g when the input is rotated (rotation %s)" % (maxdiff(o3[1]["val"], out[1]["val"]) if o3[0] == "ok" else float("nan"), [round(x, 4) for x in R]),
+        if differs(o3) > tol * 5:
+            return {"what": "output changes by %.3g when the input is rotated (rotation matrix %s)" % (differs(o3), [round(x, 4) for x in R]),
                     "clause": "invariance-rotation"}
         return None
 
